@@ -270,17 +270,17 @@ func goxRules(c *Ctx) {
 func onceRules(c *Ctx) {
 	P := c.P
 	kinds := map[string]string{
-		"(*Buffer).Close$1":          "once",
-		"(*consumer).Close$1":        "once",
-		"(*Channel).Close$1":         "once",
-		"(*Exclusive).call$1":        "C10: single send+close, exclusive with resolve's",
-		"(*Exclusive).call$1$1$1":    "once",
-		"(*Workers).worker$1":        "single deferred close of the per-item reply channel (C14)",
-		"(*Worker).wait":             "close(stop) once per instance, in the hold in which no holder re-registered (C17)",
-		"(*Worker).do":               "close(done) once per instance, after fn returned (C17)",
-		"LinearAttempt":              "C20: closes are on mutually exclusive paths",
-		"LinearAttempt$1":            "C20: single deferred close in the goroutine",
-		"(*ChanPubSub).markBroken":   "tolerated double close under recover(): misuse path only (documented in the source)",
+		"(*Buffer).Close$1":        "once",
+		"(*consumer).Close$1":      "once",
+		"(*Channel).Close$1":       "once",
+		"(*Exclusive).call$1":      "C10: single send+close, exclusive with resolve's",
+		"(*Exclusive).call$1$1$1":  "once",
+		"(*Workers).worker$1":      "single deferred close of the per-item reply channel (C14)",
+		"(*Worker).wait":           "close(stop) once per instance, in the hold in which no holder re-registered (C17)",
+		"(*Worker).do":             "close(done) once per instance, after fn returned (C17)",
+		"LinearAttempt":            "C20: closes are on mutually exclusive paths",
+		"LinearAttempt$1":          "C20: single deferred close in the goroutine",
+		"(*ChanPubSub).markBroken": "tolerated double close under recover(): misuse path only (documented in the source)",
 	}
 	n := 0
 	for _, fn := range P.Funcs {
